@@ -148,6 +148,9 @@ def judge(vendor, acl_level, acl_compiled, acl_text, old, new, report):
     try:
         diff, patch = env.diff_and_patch(env.device(vendor), env.to_odict(old), env.to_odict(new), acl_compiled, None, False, rb=rbk)
     except Exception as e:  # noqa
+        from mc import core
+        if core.raised_in_harness(e):
+            raise
         report({"kind": "exception", "exc": type(e).__name__, "acl_shape": acl_shape(acl_text)}, case, repr(e)[:300])
         return 0, False
     paths = list(env.formatter(vendor).cmd_paths(patch).keys())
